@@ -78,7 +78,7 @@ def _is_snapshot(term: ast.AST, selfn: str) -> Optional[bool]:
     """True: a copy; False: the live array; None: unknown."""
     if attr_of_name(term, selfn, "volumes"):
         return True  # property returning a copy (checked in C11.snapshot/volumes)
-    if isinstance(term, ast.Call) and call_fname(term) in ("copy", "array", "deepcopy", "round"):
+    if isinstance(term, ast.Call) and call_fname(term) in ("copy", "array", "deepcopy"):
         return True
     if attr_of_name(term, selfn, "_volumes"):
         return False
@@ -132,6 +132,10 @@ def snapshot(ctx) -> None:
                 n += 1
                 t = fv.res.resolve(v, node.id)
                 snap = _is_snapshot(t, selfn)
+                if snap is None and isinstance(t, ast.Call) and call_fname(t) in ("round", "around", "round_", "floor", "ceil", "rint", "trunc", "astype"):
+                    ctx.rep.refuted(rule, f"{f.qualname}/{stmt_key(a)[:60]}/exact", f"`{stmt_key(a)[:70]}` stores `{show(t)[:50]}`: the history entry is a rounded / converted version of the "
+                                    "volumes, not the state the labware was in", where=f.where(a))
+                    continue
                 ctx.rep.check(snap, rule, f"{f.qualname}/{stmt_key(a)[:60]}", "stored history value is a snapshot",
                               f"`{stmt_key(a)[:80]}` stores `{show(t)[:60]}` in the history: the live volume array (no copy) - later operations silently rewrite this entry" if snap is False
                               else f"cannot establish that `{show(t)[:60]}` is a copy", where=f.where(a))
